@@ -1,13 +1,17 @@
 //! Checks that do not use the shared replication simulation (C12 component level, C13, C14, C17).
 
 use crate::check::{self, Replay};
+use crate::fam_c12::C12c;
 use crate::fam_c13::C13;
+use crate::fam_c14::{self, C14};
 use crate::fam_c17::C17;
 
 pub fn worker(family: &str, prop: &str, seed: u64, start: u64, stride: u64, total: u64) {
     match family {
         "c17" => check::worker::<C17>(prop, seed, start, stride, total),
         "c13" => check::worker::<C13>(prop, seed, start, stride, total),
+        "c12c" => check::worker::<C12c>(prop, seed, start, stride, total),
+        "c14" => check::worker::<C14>(prop, seed, start, stride, total),
         _ => {
             eprintln!("harness error: unknown family {family}");
             std::process::exit(2);
@@ -19,6 +23,8 @@ pub fn replay(r: &Replay) -> i32 {
     match r.family.as_str() {
         "c17" => check::replay::<C17>(r),
         "c13" => check::replay::<C13>(r),
+        "c12c" => check::replay::<C12c>(r),
+        "c14" => check::replay::<C14>(r),
         _ => {
             eprintln!("harness error: unknown replay family {}", r.family);
             2
@@ -29,7 +35,71 @@ pub fn replay(r: &Replay) -> i32 {
 pub fn check(prop: &str, tier: &str) -> i32 {
     match prop {
         "C17" => check::check::<C17>(prop, tier, "exploration", serde_json::Value::Null),
+        "C12" => {
+            // Two sub-batches: end to end through the replication simulation, and component level.
+            let (c1, e1) = check::run_check::<crate::repl_engine::Repl>(prop, tier, "exploration", serde_json::Value::Null);
+            if c1 == 2 {
+                return 2;
+            }
+            let (c2, e2) = check::run_check::<C12c>(prop, tier, "exploration", serde_json::Value::Null);
+            if c2 == 2 {
+                return 2;
+            }
+            let (mut e1, e2) = (e1.unwrap(), e2.unwrap());
+            let n = |v: &serde_json::Value, k: &str| v["coverage"][k].as_u64().unwrap_or(0);
+            let evals = n(&e1, "evaluations") + n(&e2, "evaluations");
+            let distinct = n(&e1, "distinct_nontrivial") + n(&e2, "distinct_nontrivial");
+            let wall = e1["wall_s"].as_f64().unwrap_or(0.0) + e2["wall_s"].as_f64().unwrap_or(0.0);
+            let mut samples = e1["coverage"]["samples"].as_array().cloned().unwrap_or_default();
+            samples.extend(e2["coverage"]["samples"].as_array().cloned().unwrap_or_default());
+            let rule = format!("two sub-batches. End to end: {} Component level: {}", e1["coverage"]["rule"].as_str().unwrap_or(""), e2["coverage"]["rule"].as_str().unwrap_or(""));
+            let sub = serde_json::json!({"end_to_end": e1["coverage"].clone(), "component_level": e2["coverage"].clone()});
+            e1["coverage"]["evaluations"] = evals.into();
+            e1["coverage"]["distinct_nontrivial"] = distinct.into();
+            e1["coverage"]["samples"] = samples.into();
+            e1["coverage"]["rule"] = rule.into();
+            e1["coverage"]["sub_batches"] = sub;
+            e1["wall_s"] = wall.into();
+            e1["violations"] = ((c1.max(c2) == 1) as u64).into();
+            check::write_evidence(prop, &e1);
+            c1.max(c2)
+        }
         "C13" => check::check::<C13>(prop, tier, "exploration", serde_json::Value::Null),
+        "C14" => {
+            // "The same hash in every run": compare this process with two fresh ones.
+            let here = fam_c14::hash_of(&fam_c14::CANON);
+            let exe = std::env::current_exe().expect("own path");
+            let mut others = vec![];
+            for _ in 0..2 {
+                match std::process::Command::new(&exe).arg("c14hash").output() {
+                    Ok(o) => others.push(String::from_utf8_lossy(&o.stdout).trim().to_string()),
+                    Err(e) => {
+                        eprintln!("harness error: cannot run c14hash: {e}");
+                        return 2;
+                    }
+                }
+            }
+            let stable = others.iter().all(|h| *h == here);
+            let extra = serde_json::json!({"cross_process_hash": {"this_process": here, "fresh_processes": others, "equal": stable}});
+            if !stable {
+                // Reported through the normal path by a directed pair that cannot fail otherwise.
+                println!("hash differs between processes: {here} vs {others:?}");
+                let r = check::Replay {
+                    property: "C14".into(),
+                    oracle: "hash_differs_between_processes".into(),
+                    seed: check::seed_from_env(),
+                    index: 0,
+                    family: "c14".into(),
+                    violation: crate::sim::Violation { prop: "C14".into(), oracle: "hash_differs_between_processes".into(), detail: format!("{here} vs {others:?}"), step: 0 },
+                    original_steps: 0,
+                    trace: serde_json::json!({"server": fam_c14::CANON, "client": fam_c14::CANON, "delay": 0, "late_client": false}),
+                };
+                let path = check::write_replay(&r);
+                println!("VIOLATION property=C14 replay={path}");
+                return 1;
+            }
+            check::check::<C14>(prop, tier, "exploration", extra)
+        }
         _ => {
             eprintln!("harness error: no check for {prop}");
             2
